@@ -692,10 +692,15 @@ func (w *World) inlineText(h *Func, s *inlineSite, serial int, overlay map[strin
 		}
 		subst[obj] = id.Name + suffix
 	}
+	callerTaken := w.takenNames(s.caller)
 	for node, obj := range info.Implicits {
 		if node.Pos() >= bodyStart && node.End() <= bodyEnd {
 			if _, isCC := node.(*ast.CaseClause); isCC {
-				subst[obj] = obj.Name() + suffix
+				if callerTaken[obj.Name()] {
+					subst[obj] = obj.Name() + suffix
+				} else {
+					subst[obj] = obj.Name()
+				}
 			}
 		}
 	}
@@ -705,7 +710,11 @@ func (w *World) inlineText(h *Func, s *inlineSite, serial int, overlay map[strin
 		if ts, ok := x.(*ast.TypeSwitchStmt); ok {
 			if as, ok := ts.Assign.(*ast.AssignStmt); ok && len(as.Lhs) == 1 {
 				if id, ok := as.Lhs[0].(*ast.Ident); ok && id.Name != "_" {
-					skip[id] = id.Name + suffix
+					if callerTaken[id.Name] {
+						skip[id] = id.Name + suffix
+					} else {
+						skip[id] = id.Name
+					}
 				}
 			}
 		}
@@ -763,7 +772,42 @@ func (w *World) inlineText(h *Func, s *inlineSite, serial int, overlay map[strin
 				}
 			}
 		}
-		if simpleArg(arg) && (!assigned[pobj] || deadAfter) && at != nil && types.Identical(at, pobj.Type()) {
+		// an interface parameter that receives a plain variable of a concrete type stands for that variable, unless the
+		// helper looks at its dynamic type or stores it somewhere as the interface
+		ifaceOK := false
+		if _, isIface := pobj.Type().Underlying().(*types.Interface); isIface && at != nil && !assigned[pobj] && types.AssignableTo(at, pobj.Type()) {
+			if _, argIsIface := at.Underlying().(*types.Interface); !argIsIface {
+				ifaceOK = true
+				ast.Inspect(h.Decl.Body, func(x ast.Node) bool {
+					switch y := x.(type) {
+					case *ast.TypeAssertExpr:
+						if id, ok := ast.Unparen(y.X).(*ast.Ident); ok && info.ObjectOf(id) == pobj {
+							ifaceOK = false
+						}
+					case *ast.AssignStmt:
+						for _, r := range y.Rhs {
+							if id, ok := ast.Unparen(r).(*ast.Ident); ok && info.ObjectOf(id) == pobj {
+								ifaceOK = false
+							}
+						}
+					case *ast.BinaryExpr:
+						for _, side := range []ast.Expr{y.X, y.Y} {
+							if id, ok := ast.Unparen(side).(*ast.Ident); ok && info.ObjectOf(id) == pobj {
+								ifaceOK = false // comparing the interface value (e.g. with nil) means something else for a pointer
+							}
+						}
+					case *ast.ReturnStmt:
+						for _, r := range y.Results {
+							if id, ok := ast.Unparen(r).(*ast.Ident); ok && info.ObjectOf(id) == pobj {
+								ifaceOK = false
+							}
+						}
+					}
+					return true
+				})
+			}
+		}
+		if simpleArg(arg) && (!assigned[pobj] || deadAfter) && at != nil && (types.Identical(at, pobj.Type()) || ifaceOK) {
 			if _, isSel := ast.Unparen(arg).(*ast.StarExpr); isSel {
 				argText = "(" + argText + ")"
 			}
@@ -1672,6 +1716,10 @@ func (w *World) opaque(f *Func) string {
 		why = "has a different signature than the one the rules were written for"
 	}
 	info := f.Pkg.TypesInfo
+	if _, pinned := pinnedFuncs[f.Name]; why == "" && !pinned && !w.aliased[f] && !strings.Contains(f.Name, "#") && !strings.Contains(f.Name, "$") {
+		// a function that did not exist when the rules were written: what a rule misses in it, it may simply not know
+		why = "is a function the rules have never seen"
+	}
 	if why == "" && w.SplitIn[f.Name] != "" {
 		// the values were found again, but they still travel through flags and copies the shape rules do not follow
 		why = "carried values in a struct the rules have never seen (" + w.SplitIn[f.Name] + ", split into one local per field before analysis)"
